@@ -23,6 +23,8 @@ pub struct VecCall<T: Elem> {
     pub poison: u8,
     /// Bit pattern the result slice is pre-filled with.
     pub prefill: u64,
+    /// Extra identity mixed into the case hash (e.g. placement, when placement is the point).
+    pub salt: u64,
 }
 
 impl<T: Elem> VecCall<T> {
@@ -37,6 +39,7 @@ impl<T: Elem> VecCall<T> {
             place: [Place::End; 3],
             poison: 0xA5,
             prefill: 0xC3C3_C3C3_C3C3_C3C3,
+            salt: 0,
         }
     }
 
@@ -186,7 +189,7 @@ impl<T: Elem> VecCall<T> {
     }
 }
 
-fn mix(h: &mut u64, x: u64) {
+pub fn mix(h: &mut u64, x: u64) {
     *h = (*h ^ x).wrapping_mul(0x9E37_79B9_7F4A_7C15);
     *h ^= *h >> 29;
 }
@@ -311,6 +314,7 @@ impl<T: Elem> Case for VecCall<T> {
             mix(&mut h, x.to_bits());
         }
         mix(&mut h, self.res_len as u64);
+        mix(&mut h, self.salt);
         h
     }
 
@@ -373,42 +377,58 @@ impl<T: Elem> Case for VecCall<T> {
             c.place = [Place::End; 3];
             out.push(c);
         }
-        // 3. values: towards 0 / 1
-        let simple = [T::zero(), T::one()];
-        let mut budget = 256usize;
-        if self.r.kind() == Kind::Map1V {
-            for s in simple {
-                if self.value.to_bits() != s.to_bits() {
-                    let mut c = self.clone();
-                    c.value = s;
-                    out.push(c);
+        // 3. values: towards 0 / 1 (x -> 0 if x != 0; x -> 1 if x not in {0, 1})
+        let zero = T::zero().to_bits();
+        let one = T::one().to_bits();
+        let cands = |x: T| -> Vec<T> {
+            let b = x.to_bits();
+            let mut v = Vec::new();
+            if b != zero {
+                v.push(T::zero());
+                if b != one {
+                    v.push(T::one());
                 }
+            }
+            v
+        };
+        if self.r.kind() == Kind::Map1V {
+            for s in cands(self.value) {
+                let mut c = self.clone();
+                c.value = s;
+                out.push(c);
             }
         }
         // whole-vector simplifications first
-        for s in simple {
-            if self.a.iter().any(|x| x.to_bits() != s.to_bits()) {
-                let mut c = self.clone();
-                c.a.iter_mut().for_each(|x| *x = s);
-                out.push(c);
-            }
-            if ub && self.b.iter().any(|x| x.to_bits() != s.to_bits()) {
-                let mut c = self.clone();
-                c.b.iter_mut().for_each(|x| *x = s);
-                out.push(c);
-            }
+        if self.a.iter().any(|x| x.to_bits() != zero) {
+            let mut c = self.clone();
+            c.a.iter_mut().for_each(|x| *x = T::zero());
+            out.push(c);
         }
+        if self.a.iter().any(|x| x.to_bits() != zero && x.to_bits() != one) {
+            let mut c = self.clone();
+            c.a.iter_mut().for_each(|x| *x = T::one());
+            out.push(c);
+        }
+        if ub && self.b.iter().any(|x| x.to_bits() != zero) {
+            let mut c = self.clone();
+            c.b.iter_mut().for_each(|x| *x = T::zero());
+            out.push(c);
+        }
+        if ub && self.b.iter().any(|x| x.to_bits() != zero && x.to_bits() != one) {
+            let mut c = self.clone();
+            c.b.iter_mut().for_each(|x| *x = T::one());
+            out.push(c);
+        }
+        let mut budget = 256usize;
         for i in 0..n {
             if budget == 0 {
                 break;
             }
-            for s in simple {
-                if self.a[i].to_bits() != s.to_bits() && self.a[i].to_bits() != T::one().to_bits() {
-                    let mut c = self.clone();
-                    c.a[i] = s;
-                    out.push(c);
-                    budget = budget.saturating_sub(1);
-                }
+            for s in cands(self.a[i]) {
+                let mut c = self.clone();
+                c.a[i] = s;
+                out.push(c);
+                budget = budget.saturating_sub(1);
             }
         }
         if ub {
@@ -416,16 +436,29 @@ impl<T: Elem> Case for VecCall<T> {
                 if budget == 0 {
                     break;
                 }
-                for s in simple {
-                    if self.b[i].to_bits() != s.to_bits() && self.b[i].to_bits() != T::one().to_bits() {
-                        let mut c = self.clone();
-                        c.b[i] = s;
-                        out.push(c);
-                        budget = budget.saturating_sub(1);
-                    }
+                for s in cands(self.b[i]) {
+                    let mut c = self.clone();
+                    c.b[i] = s;
+                    out.push(c);
+                    budget = budget.saturating_sub(1);
                 }
             }
         }
         out
     }
+}
+
+/// Hash of a placement triple (for searches where the placement is part of the case identity).
+pub fn place_salt(p: &[Place; 3]) -> u64 {
+    let mut h = 0x9876_5432_10FE_DCBAu64;
+    for x in p {
+        let v = match *x {
+            Place::End => 1u64,
+            Place::Start => 2,
+            Place::AlignHi(k) => 256 + k as u64,
+            Place::AlignLo(k) => 512 + k as u64,
+        };
+        mix(&mut h, v);
+    }
+    h
 }
